@@ -278,8 +278,49 @@ def run(ctx):
         r1["sent"]["url"] = r2["sent"]["url"] = None
         if r1 != r2:
             ctx.fail("location override changed more than the URL", {"steps": steps}, r2, r1)
+    binding_kinds(ctx)
     ctx.sample({"services": metas[-1][0], "service_opt": metas[-1][1], "port_opt": metas[-1][2], "steps": metas[-1][3]})
     ctx.sample({"services": metas[0][0], "steps": metas[0][3]})
+
+
+def binding_kinds(ctx):
+    """The binding style/use the WSDL declares, per direction: an operation whose input and output soap:body differ
+    in use= is sent by the one and decoded by the other, through every selector form."""
+    schema = ""
+    ops = {"lit_enc": ("literal", "encoded"), "enc_lit": ("encoded", "literal"), "lit_lit": ("literal", "literal"),
+           "enc_enc": ("encoded", "encoded")}
+    w = ['<?xml version="1.0"?><wsdl:definitions targetNamespace="%s" xmlns:wsdl="http://schemas.xmlsoap.org/wsdl/" '
+         'xmlns:w="%s" xmlns:soap="http://schemas.xmlsoap.org/wsdl/soap/" xmlns:xsd="http://www.w3.org/2001/XMLSchema">'
+         '<wsdl:message name="in"><wsdl:part name="a" type="xsd:string"/></wsdl:message>'
+         '<wsdl:message name="out"><wsdl:part name="r" type="xsd:string"/></wsdl:message><wsdl:portType name="PT">'
+         % (wsdlkit.WNS, wsdlkit.WNS)]
+    for o in ops:
+        w.append('<wsdl:operation name="%s"><wsdl:input message="w:in"/><wsdl:output message="w:out"/></wsdl:operation>' % o)
+    w.append('</wsdl:portType><wsdl:binding name="B" type="w:PT"><soap:binding style="rpc" '
+             'transport="http://schemas.xmlsoap.org/soap/http"/>')
+    for o, (ui, uo) in ops.items():
+        enc = ' encodingStyle="http://schemas.xmlsoap.org/soap/encoding/"'
+        w.append('<wsdl:operation name="%s"><soap:operation soapAction="%s"/><wsdl:input><soap:body use="%s" '
+                 'namespace="urn:rpcns"%s/></wsdl:input><wsdl:output><soap:body use="%s" namespace="urn:rpcns"%s/>'
+                 '</wsdl:output></wsdl:operation>' % (o, o, ui, enc if ui == "encoded" else "", uo,
+                                                      enc if uo == "encoded" else ""))
+    w.append('</wsdl:binding><wsdl:service name="S"><wsdl:port name="P" binding="w:B"><soap:address '
+             'location="http://h.invalid/S/P"/></wsdl:port></wsdl:service></wsdl:definitions>')
+    c = wsdlkit.client("".join(w).encode(), nosend=True)
+    kind = {"literal": "RPC", "encoded": "Encoded"}
+    for o, (ui, uo) in ops.items():
+        for form, sel in (("attr", lambda: getattr(c.service, o)), ("port", lambda: getattr(c.service["P"], o)),
+                          ("index", lambda: c.service[0][o])):
+            meta = {"stream": "binding-kinds", "operation": o, "selector": form}
+            ctx.case(common.canon(meta), True)
+            try:
+                m = sel().method
+                got = [type(m.binding.input).__name__, type(m.binding.output).__name__]
+            except Exception as e:
+                got = repr(e)
+            if got != [kind[ui], kind[uo]]:
+                ctx.fail("the binding used for a direction is not the style/use the WSDL declares for it", meta, got,
+                         [kind[ui], kind[uo]])
 
 
 def widen(ctx):
